@@ -182,7 +182,7 @@ impl Check for C20 {
         "C20"
     }
     fn rule(&self) -> String {
-        "case = random ll(k) or conflict-free lalr(1) grammar x 8 token-level inputs (sentences, mutants, random) x option sets {tree trimming on/off, recovery on/off (LL), depth limit in {none, 1, 2, 3, 5, 10, 100, 1000000}}; oracle relative to the run without options: trimming and disabled recovery give the same verdict and the identical semantic-action trace (production numbers and children); a depth limit gives either the identical outcome and trace or the MaxParsingDepthExceeded error, never a panic, monotonically (once a limit passes every larger one is identical to the baseline, the limit 1000000 always is). Evaluations = parser runs. Non-trivial = input for which some limit triggers and a larger one does not; distinct by (grammar, input)".into()
+        "case = random ll(k) or conflict-free lalr(1) grammar x 8 token-level inputs (sentences, mutants, random) x option sets {tree trimming on/off, recovery on/off (LL), depth limit in {none, 1, 2, 3, 5, 10, 100, 1000000}}; oracle relative to the run without options: trimming and disabled recovery give the same verdict and the identical semantic-action trace (production numbers and children); a depth limit gives either the identical outcome and trace or the MaxParsingDepthExceeded error, never a panic, identically with and without trimming, monotonically (once a limit passes every larger one is identical to the baseline, the limit 1000000 always is). Evaluations = parser runs. Non-trivial = input for which some limit triggers and a larger one does not; distinct by (grammar, input)".into()
     }
     fn strategy(&self, tier: Tier) -> BoxedStrategy<TextCase> {
         mixed_strategy(tier, 8, false)
@@ -246,6 +246,19 @@ impl Check for C20 {
                 st.eval(1);
                 if let Outcome::Panic(p) = &run.outcome {
                     return Verdict::Fail("C20:depth_limit_causes_panic".into(), format!("{p}\n{}", ctx(&o)));
+                }
+                // option combination: the same limit with tree trimming must behave identically
+                let ot = RunOpts { max_depth: Some(limit), trim: true, ..RunOpts::default() };
+                let run_t = interp::run(&r.loaded, &text, &ot, WORK);
+                st.eval(1);
+                if let Outcome::Panic(p) = &run_t.outcome {
+                    return Verdict::Fail("C20:depth_limit_causes_panic".into(), format!("{p}\n{}", ctx(&ot)));
+                }
+                if class_of(&run_t.outcome) != class_of(&run.outcome) || run_t.trace.actions != run.trace.actions {
+                    return Verdict::Fail(
+                        "C20:trimming_changes_outcome_under_a_depth_limit".into(),
+                        format!("limit {limit}: untrimmed {:?}, trimmed {:?}\n{}", run.outcome, run_t.outcome, ctx(&ot)),
+                    );
                 }
                 let exceeded = matches!(&run.outcome, Outcome::Err(k, _) if k == "MaxParsingDepthExceeded");
                 if exceeded {
